@@ -1,9 +1,10 @@
 SPECIFICATION Spec
 CONSTANTS
+    AcceptLoopSurvives = TRUE
     EnvSet <- SmallEnvs
     ProxySyntaxSilent = FALSE
     MaxConns = 2
     MaxEnv = 3
-INVARIANTS ErrorIsLast DoneClosesList EachMethodAnswered RunsOnlyIfLaunched
+INVARIANTS ErrorIsLast DoneClosesList EachMethodAnswered RunsOnlyIfLaunched ListensWhileRunning
 PROPERTIES HardStops GracefulStops NoSpontaneousExit
 CHECK_DEADLOCK FALSE
